@@ -267,6 +267,11 @@ def r11_6(ctx: Ctx, rule="R11.6"):
         Ln = L[0] if L else "len(%s)" % pat
         win = "self._available_mgro_ordered[%s:%s + %s]" % (i, i, Ln)
         assigns = [s_ for s_ in walk_no_nested(loops[0]) if isinstance(s_, ast.Assign) and norm(s_.value) == i]
+        ret_form = False
+        if not assigns:
+            # the position is returned from inside the loop; falling out of the loop is the not-found case
+            assigns = [s_ for s_ in walk_no_nested(loops[0]) if isinstance(s_, ast.Return) and s_.value is not None and norm(s_.value) == i]
+            ret_form = bool(assigns)
         ok = bool(assigns)
         why = ""
         if ok:
@@ -278,7 +283,7 @@ def r11_6(ctx: Ctx, rule="R11.6"):
             ok = len(full) == 1 and full[0][1] and full[0][0] in ("(%s==%s).all()" % (winc, pat), "(%s==%s).all()" % (pat, winc)) \
                 and all((t, pol) == ctext("%s == %s[0]" % (v, pat)) for t, pol in pre)
             blk = [s_ for s_ in walk_no_nested(loops[0]) if isinstance(s_, ast.Break)]
-            ok = ok and bool(blk)
+            ok = ok and (bool(blk) or ret_form)
             why = "guards of the hit: %s" % gs
     if not (loops and isinstance(loops[0].target, ast.Tuple)):
         ctx.ob(rule, f, "run search", True, "the run search is not a loop over enumerate(available kinds); not decided on this tree",
@@ -290,6 +295,15 @@ def r11_6(ctx: Ctx, rule="R11.6"):
     ctx.ob(rule, f, loops[0] if loops else "run search", ok,
            "the run search returns the first position where the window of residue kinds equals the species' pattern"
            + ("" if ok else " -- " + why), node=loops[0] if loops else f.node)
+    if ret_form:
+        body = f.node.body
+        after = body[body.index(loops[0]) + 1:] if loops[0] in body else []
+        rets = [r_ for r_ in walk_no_nested(f.node) if isinstance(r_, ast.Return)]
+        okn = bool(after) and branch_raises(after) and not loops[0].orelse and all(any(r_ is a_ for a_ in assigns) for r_ in rets)
+        ctx.ob(rule, f, after[0] if after else "not-found exit", okn,
+               "no matching run means the topology is refused (the statements after the search loop raise); the only value "
+               "returned is the position found", node=after[0] if after else f.node)
+        return _r11_6_rest(ctx, rule, add)
     hitvar = norm(assigns[0].targets[0]) if loops and isinstance(loops[0].target, ast.Tuple) and assigns else "start_index"
     nf = [n_ for n_ in walk_no_nested(f.node) if isinstance(n_, ast.If) and branches(n_)[0] == ctext("%s is None" % hitvar)[0]
           and branch_raises(branches(n_)[1] if ctext("%s is None" % hitvar)[1] else branches(n_)[2])]
